@@ -292,6 +292,7 @@ impl World {
             let l = self.nodes[i].live.as_mut().unwrap();
             l.flow.clear();
             l.snap_out.clear();
+            l.snap_idx.clear();
             l.xfer = None;
         }
         // acknowledgements generated by this call: remember the term of the acked entry
@@ -1169,6 +1170,51 @@ impl World {
 
     fn c17_transfer(&mut self, i: usize, kind: &CallKind, pre: &Snap, post: &Snap, ctx: &mut Ctx) {
         let id = i as u64 + 1;
+        // a follower relays a transfer request unchanged: to its leader, naming the same target
+        if let CallKind::Transfer(t) = kind {
+            if pre.role == StateRole::Follower && post.role == StateRole::Follower {
+                let l = self.live(i).unwrap();
+                let fresh: Vec<&Message> = l.rn.raft.msgs.iter().skip(pre.msgs_len.min(l.rn.raft.msgs.len())).collect();
+                let ok = if pre.lead == 0 {
+                    fresh.is_empty()
+                } else {
+                    fresh.len() == 1
+                        && fresh[0].get_msg_type() == MessageType::MsgTransferLeader
+                        && fresh[0].to == pre.lead
+                        && fresh[0].from == *t
+                };
+                if !ok {
+                    ctx.v(
+                        "C17",
+                        "follower did not relay the transfer request unchanged to its leader",
+                        format!(
+                            "follower {} (leader {}), request naming {}: generated {:?}",
+                            id,
+                            pre.lead,
+                            t,
+                            fresh.iter().map(|m| (m.get_msg_type(), m.to, m.from)).collect::<Vec<_>>()
+                        ),
+                    );
+                }
+            }
+        }
+        // a leader that steps a (relayed) transfer request ends up transferring to the node the
+        // request names, to nobody, or keeps what it was doing
+        if let CallKind::Step(m) = kind {
+            if m.get_msg_type() == MessageType::MsgTransferLeader
+                && pre.role == StateRole::Leader
+                && post.role == StateRole::Leader
+                && post.transferee != pre.transferee
+                && post.transferee.is_some()
+                && post.transferee != Some(m.from)
+            {
+                ctx.v(
+                    "C17",
+                    "leader started a transfer to a node the request does not name",
+                    format!("leader {}: request names {}, transferee {:?} -> {:?}", id, m.from, pre.transferee, post.transferee),
+                );
+            }
+        }
         if post.role != StateRole::Leader {
             return;
         }
@@ -1265,6 +1311,18 @@ impl World {
                     if conf != RefConf::from_cs(cs) {
                         ctx.v("C15", "configuration after snapshot install differs from the snapshot", format!("node {}: {:?} vs {:?}", id, conf, cs));
                     }
+                    // C09: the configuration received by snapshot is the fold of the membership
+                    // entries up to the snapshot index (where the reference knows that fold)
+                    if let Some((_, want)) = self.ghost.conf_at.range(..=si).next_back() {
+                        let want = RefConf::from_cs(want);
+                        if want != conf {
+                            ctx.v(
+                                "C09",
+                                "configuration after a snapshot is not the fold of the membership entries up to its index",
+                                format!("node {} snapshot index {}: has {:?}, reference {:?}", id, si, conf, want),
+                            );
+                        }
+                    }
                     self.c01_report_term(i, si, st, "snapshot install", ctx);
                 } else {
                     let matched = (si == pre.first - 1 && pre.base_known && st == pre.base_term) || pre.at(si).map(|x| x.0) == Some(st);
@@ -1303,6 +1361,17 @@ impl World {
                         "replication resumes before the snapshot index",
                         format!("leader {} -> {}: next_idx {} after snapshot {} reported done", id, to, np.next_idx, p.pending_snapshot),
                     );
+                }
+                if *ok {
+                    if let Some(sent) = l.snap_idx.get(to) {
+                        if np.next_idx < *sent + 1 {
+                            ctx.v(
+                                "C15",
+                                "replication resumes before the index of the snapshot that was sent",
+                                format!("leader {} -> {}: next_idx {} after the snapshot at index {} was reported done", id, to, np.next_idx, sent),
+                            );
+                        }
+                    }
                 }
                 if np.matched != p.matched {
                     ctx.v(
@@ -1559,6 +1628,7 @@ impl World {
             if !l.snap_out.contains(&m.to) {
                 l.snap_out.push(m.to);
             }
+            l.snap_idx.insert(m.to, m.get_snapshot().get_metadata().index);
         }
     }
 
